@@ -255,5 +255,5 @@ func TestVerif_C10live(t *testing.T) {
 		return verifkit.Decode(raw, prop)
 	})
 	verifkit.Enumerate(k, t, "liveness-fault-matrix", true, c10Matrix, prop)
-	verifkit.Rapid(k, t, "liveness-random-faults", k.N(2000, 100000), c10GenLive, prop)
+	verifkit.Rapid(k, t, "liveness-random-faults", k.N(2000, 300000), c10GenLive, prop)
 }
